@@ -13,7 +13,9 @@ Models == {"ok_lp", "ok_logic", "infeas", "unsupported", "needbounds",
            "infeas_nested",    \* infeasibility found while propagating into a nested expression
            "ok_noobj",         \* valid model without objective
            "ok_obj2",          \* valid model with two objectives, the second one selected (objno=2)
-           "ok_quad"}          \* valid model whose only constraint is quadratic (no linear row: no dual vector)
+           "ok_quad",          \* valid model whose only constraint is quadratic (no linear row: no dual vector)
+           "ok_powce",         \* valid model with (1+1)^x: the base of a power is a constant EXPRESSION, not a literal
+           "bad_powvar"}       \* x^x written with the constant-exponent opcode: not supported, to be diagnosed
 Opts == {"none", "valid", "unknown", "illtyped", "objno_range",
          "solcount",           \* valid: sol:count=1 (multiple-solution suffixes)
          "optfile_self",       \* tech:optionfile naming a file that includes itself
@@ -28,7 +30,7 @@ Names == {"absent", "present", "short", "crlf",
 Outs == {"ok", "blocked",
          "full"}               \* the result path accepts open() but fails on write/close (device full)
 NewValues == {"infeas_nested", "ok_noobj", "ok_obj2", "solcount", "optfile_self", "optfile_missing", "emptyfirst", "full", "solstub", "warn2",
-              "ok_quad", "wantsol7", "print"}
+              "ok_quad", "wantsol7", "print", "ok_powce", "bad_powvar"}
 Scripted == 0                  \* the result code the scripted solver reports
 NAlt == 3                      \* further solutions the scripted solver reports in a "solstub" scenario
 \* the scenario space: the complete product of the round-1 values, plus every scenario that uses
@@ -44,7 +46,7 @@ Scenarios == {s \in [model : Models, opt : Opts, mode : Modes, names : Names, ou
 HeaderReadable(s) == s.model \notin {"trunc_header", "empty", "missing"}
 BodyBad(s) == s.model \in {"trunc_body", "bad_opcode", "bad_index"}
 OptBad(s) == s.opt \in {"unknown", "illtyped", "objno_range", "optfile_self", "optfile_missing"}
-ConvBad(s) == s.model \in {"unsupported", "needbounds"}
+ConvBad(s) == s.model \in {"unsupported", "needbounds", "bad_powvar"}
 Failing(s) == ~HeaderReadable(s) \/ BodyBad(s) \/ OptBad(s) \/ ConvBad(s)
 WantsSol(s) == s.mode \in {"ampl", "wantsol", "wantsol7"}
 CanWriteSol(s) == WantsSol(s) /\ s.out = "ok" /\ HeaderReadable(s)
